@@ -672,6 +672,7 @@ func (s *Service) serve(nc Conn) error {
 	s.queryTQ = timerqueue.New(s.queryEventExpire, s.queryDuration)
 
 	// Start workers
+	verifNote("sv.starting", "", s.workerCount)
 	s.wg.Add(s.workerCount)
 	for i := 0; i < s.workerCount; i++ {
 		go s.startWorker()
